@@ -224,3 +224,23 @@ pub fn slots_are(m: &StorageWithOriginalValues, sh: &SlotShadow, keys: Pat) -> b
 pub fn or(a: Pat, b: Pat) -> Pat {
     [a[0] || b[0], a[1] || b[1]]
 }
+
+// ---- chains of events (for transitions) ----
+/// the event produces a transition at all (selfdestruct of a never-existing account, a touch of an absent account
+/// and the pre-161 touch of the loaded-empty account report nothing: unit acctstate)
+pub fn produces(s: AccountStatus, e: Ev) -> bool {
+    match e {
+        Ev::Selfdestructed => !st_eq(s, LoadedNotExisting),
+        Ev::TouchedEmptyPost161 => exists(s),
+        Ev::TouchedCreatedPre161 => !st_eq(s, LoadedEmptyEIP161),
+        _ => true,
+    }
+}
+/// legal, and: a CREATE never lands on an account that has a nonce or code (status Changed) -- EIP-684 / EIP-7610
+/// collision rule (C21); `update_and_create_revert` has an `unreachable!()` arm for Changed -> InMemoryChange
+pub fn legal_c(s: AccountStatus, e: Ev) -> bool {
+    legal(s, e) && produces(s, e) && !(st_eq(s, Changed) && matches!(e, Ev::Created))
+}
+pub fn info_for(s: AccountStatus) -> Option<AccountInfo> {
+    if exists(s) { Some(any_info()) } else { None }
+}
